@@ -21,17 +21,6 @@ struct Lang {
     samples: Option<String>,
 }
 
-fn small_table_len(parser_c: &str) -> usize {
-    match parser_c.find("ts_small_parse_table[] = {") {
-        None => 0,
-        Some(i) => {
-            let rest = &parser_c[i..];
-            let end = rest.find("\n};").unwrap_or(rest.len());
-            rest[..end].matches(',').count()
-        }
-    }
-}
-
 /// Generate parser.c and node-types.json with the real generator (one call), compile, load.
 fn build(work: &Path, id: &str, spec: &str, grammar_json: &str, scanner: Option<&str>, samples: Option<String>,
          ops: &mut impl Write, list: &mut impl Write) -> Result<Lang, String> {
@@ -53,7 +42,7 @@ fn build(work: &Path, id: &str, spec: &str, grammar_json: &str, scanner: Option<
     let _ = std::fs::remove_dir_all(&dir);
     writeln!(ops, "spec L-{id} {spec} @").unwrap();
     writeln!(ops, "nodetypes {id} {}", hex(node_types.as_bytes())).unwrap();
-    writeln!(list, "lang {id} {} tree_sitter_{name} {}", libdir.join("lang.so").display(), small_table_len(&parser_c)).unwrap();
+    writeln!(list, "lang {id} {} tree_sitter_{name} 0", libdir.join("lang.so").display()).unwrap();
     ops.flush().unwrap();
     list.flush().unwrap();
     rust_api(&language, id, ops);
